@@ -58,6 +58,7 @@ func main() {
 	sites := fs.Int("sites", 0, "number of instrumented sites")
 	reps := fs.Int("reps", 1, "repetitions (par)")
 	summary := fs.String("summary", "", "write corpus classification summary here (gen)")
+	lifetimes := fs.Bool("lifetimes", false, "the tree uses finalizers/cleanups/weak/unique (run) or: enable the GC fault (gen)")
 	soak := fs.Int("soak", -1, "soak batch: force ecosystem number N (mod count) in every run (gen)")
 	reverse := fs.Bool("reverse", false, "evaluate cases and operations in reverse order (ref)")
 	budget := fs.Uint64("opbudget", 4_000_000, "per-operation step budget")
@@ -80,6 +81,7 @@ func main() {
 			names := harness.EcoNames()
 			g.Soak = names[*soak%len(names)]
 		}
+		g.Lifetimes = *lifetimes
 		b := harness.Batch{Seed: *seed, Tier: *tier, Batch: *batch}
 		for i := *from; i < *to; i++ {
 			sp := g.Spec(*seed, i)
@@ -127,7 +129,7 @@ func main() {
 				n = *reps
 			}
 			for r := 0; r < n; r++ {
-				rr := harness.Execute(&b.Cases[i], harness.ExecOptions{KeepSwitches: *keep, KeepResults: *keep, Parallel: mode == "par"})
+				rr := harness.Execute(&b.Cases[i], harness.ExecOptions{KeepSwitches: *keep, KeepResults: *keep, Parallel: mode == "par", Lifetimes: *lifetimes})
 				for _, h := range rr.Stats.PairFP {
 					if len(pairSet) < 50000 {
 						pairSet[h] = struct{}{}
